@@ -582,7 +582,7 @@ static const char *const names[3] = { "a", "b", "c" };
 static long n_s1(int tier) { return 8L * 6 * 3 * 2 * 2 * (tier ? 3 : 1); }
 static long n_s2(void) { return 2L * 2 * NPSWEEP; }
 static long n_s3(void) { return 8L * 36; }
-static int hist_len(int tier) { return tier ? 6 : 3; }
+static int hist_len(int tier) { return tier ? 6 : 4; }
 static long n_s4(int tier)
 {
     long n = 0, p = 1;
